@@ -133,6 +133,10 @@ def gen_data(rng, size, ids=("id_a", "id_b", "id_c")):
         for i in ids:
             if rng.random() < 0.3:
                 d["rel"][i] = gen_interval(rng, size)
+                if rng.random() < 0.15:
+                    # pointer with an unknown offset into the object
+                    bits = size * 8
+                    d["rel"][i] = {"size": size, "start": "%x" % (1 << (bits - 1)), "end": "%x" % ((1 << (bits - 1)) - 1), "stride": 1, "lower": None, "upper": None, "delay": 0}
     return d
 
 
@@ -633,8 +637,8 @@ def run_rv(prop, tier):
     if drv is None:
         return [], ["driver build failed"], {}
     rng = random.Random(seed() * 31337 + {"C02": 2, "C03": 3, "C04": 4}[prop])
-    n = int(os.environ.get("VERIF_RV_CASES", "6000" if tier == "quick" else "200000"))
-    budget = float(os.environ.get("VERIF_RV_BUDGET_S", "150" if tier == "quick" else "2400"))
+    n = int(os.environ.get("VERIF_RV_CASES", "12000" if tier == "quick" else "200000"))
+    budget = float(os.environ.get("VERIF_RV_BUDGET_S", "240" if tier == "quick" else "2400"))
     rv = RV(prop, drv, rng, budget)
     cov = rv.run(n)
     return rv.violations, rv.inconclusive, cov
